@@ -1,4 +1,5 @@
 import PhysisModel.Proofs.C18Hdr
+import PhysisModel.Proofs.C18Fmt
 /-!
 # C18 — damaged game data is rejected without crashing
 
@@ -78,6 +79,29 @@ theorem c18_exh_alloc (b : Bytes) : (C18Hdr.exh b).peak ≤ 64 * b.length + 1677
 theorem c18_exd_total (b : Bytes) : ¬ faults (C18Hdr.exd b) := (PGood.run C18Hdr.exdFile_good b).1
 theorem c18_exd_alloc (b : Bytes) : (C18Hdr.exd b).peak ≤ 64 * b.length + 16777216 :=
   (PGood.run C18Hdr.exdFile_good b).2
+
+/-! ## step 2 (asset side): cmp, tex, EXD::read_row -/
+
+theorem c18_cmp_total (b : Bytes) : ¬ faults (C18Fmt.cmp b) := (C18Fmt.cmp_good b).1
+theorem c18_cmp_alloc (b : Bytes) : (C18Fmt.cmp b).peak ≤ 64 * b.length + 16777216 := (C18Fmt.cmp_good b).2
+/-- pinned commit: `buffer.len() - 0x2A800` underflows on the empty buffer (repaired by `fixes/C18-02`) -/
+theorem c18_cmp_unfixed_witness : faults (C18Fmt.cmpUnfixed []) := faults_of_isFault (by decide)
+
+/-- `Texture::from_existing` (repaired by `fixes/C18-03`), assuming the `src/bcn` block decoders are
+panic-free under the two preconditions they check themselves -/
+theorem c18_tex_total (b : Bytes) : ¬ faults (C18Fmt.tex b) := (C18Fmt.tex_good b).1
+theorem c18_tex_alloc (b : Bytes) : (C18Fmt.tex b).peak ≤ 64 * b.length + 16777216 := (C18Fmt.tex_good b).2
+/-- pinned commit: an 80-byte B8G8R8A8 header declaring 1×1×1 with no payload indexes `src[0]` -/
+theorem c18_tex_unfixed_witness :
+    faults (C18Fmt.texUnfixed ([0, 0, 0x80, 0, 0x50, 0x14, 0, 0, 1, 0, 1, 0, 1, 0, 1, 0] ++ List.replicate 64 0)) :=
+  faults_of_isFault (by decide)
+
+/-- `EXH::from_existing` + `EXD::from_existing` + `EXD::read_row` (repaired by `fixes/C18-04`),
+for every header file, every page file and every row id; the budget is that of both files -/
+theorem c18_exdrow_total (e d : Bytes) (id : Nat) : ¬ faults (C18Fmt.exdRow e d id) :=
+  (C18Fmt.exdRow_good e d id).1
+theorem c18_exdrow_alloc (e d : Bytes) (id : Nat) :
+    (C18Fmt.exdRow e d id).peak ≤ 64 * (e.length + d.length) + 16777216 := (C18Fmt.exdRow_good e d id).2
 
 /-- non-vacuity: the models accept well-formed headers (a 16-byte `uldh`/`0100` header parses) -/
 example : (C18Hdr.uld [0x75, 0x6c, 0x64, 0x68, 0x30, 0x31, 0x30, 0x30, 1, 0, 0, 0, 2, 0, 0, 0]).isOk = true := by
